@@ -19,7 +19,7 @@ class C04(Prop):
             ">= 2 connections actually interleave at the tap; distinct = distinct interleaving signatures")
     reach = ["same_hosts_diff_client_port", "same_client_port_diff_server", "same_server_diff_clients", "crossed_pair_same_ports", "equal_initial_sequence_numbers", "quic_cid_begins_with_other_connections_cid",
              "resumption_shares_master_secret", "v4_v6_mixed",
-             "tls_quic_mixed", "quic_zero_len_cid", "noise", "long_key_log_line_across_block_boundary", "n_ge_4", "policy_bursty", "policy_sequential"]
+             "tls_quic_mixed", "quic_zero_len_cid", "noise", "long_key_log_line_across_block_boundary", "secrets_block_per_connection", "n_ge_4", "policy_bursty", "policy_sequential"]
 
     def plan(self, tier):
         p = super().plan(tier)
@@ -70,7 +70,6 @@ class C04(Prop):
                         from .. import quicpeer as QP
                         o3 = E.choice(qs)
                         _, info = QP.build_units(o3)
-                        first_c = bytes.fromhex(info["dmeta"][0]["pk"][0]["dcid"])  # not an scid; use real scids below
                         oq = o3["q"]
                         import hashlib
                         # the earlier connection's scids are a pure function of its sub-seed
@@ -113,6 +112,10 @@ class C04(Prop):
         spec = {"prop": "C04", "conns": conns, "tap": gen.gen_tap(R.fork("tap")), "policy": policy,
                 "keychan": {"mode": "file", "perm_seed": R.bits(30)}}
         if R.chance(15):
+            # a merged capture: the secrets of each connection arrive in a block of their own, in front of its first packet
+            spec["keychan"] = {"mode": "dsb", "dsb_per_conn": True}
+            spec["secrets_block_per_connection"] = True
+        elif R.chance(15):
             # the shared key log is long (unrelated lines in front); one of the connections' lines lies across a block boundary
             spec["keychan"]["straddle"] = R.bits(30)
             spec["long_key_log"] = True
@@ -214,6 +217,8 @@ class C04(Prop):
             out.count("reach:n_ge_4")
         if spec.get("long_key_log"):
             out.count("reach:long_key_log_line_across_block_boundary")
+        if spec.get("secrets_block_per_connection"):
+            out.count("reach:secrets_block_per_connection")
         if spec.get("policy") in ("bursty", "sequential"):
             out.count("reach:policy_" + spec["policy"])
 
